@@ -16,7 +16,8 @@ from vk import tree as vtree
 
 LEVEL = 'exploration'
 RULE = ('trees: corpus and Annex A derivations (every generator alternative forced round-robin, so every node kind '
-        'with optional parts present and absent), parsed without and with comment capture; a case = (text, capture '
+        'with optional parts present and absent), parsed without and with comment capture; walk / filter / extract alone '
+        'and with several traversals of one Walker alive at once; a case = (text, capture '
         'flag); non-trivial = at least 5 nodes; distinct by (text, flag).')
 ASSUMPTIONS = ['the reflective traversal (vars(node), lists included, _token_map excluded) defines "every node stored in '
                'any attribute"; the root itself is not yielded (documented: children only)']
